@@ -82,6 +82,8 @@ let zeros n = List.init n (fun _ -> N0)
 let show_span nalloc s' =
   Printf.sprintf "%d %s %s" (nalloc - List.length s'.sp_data) (show_u64 (sp_bits s')) (show_u64 s'.sp_off)
 
+let pad_fixed = ref false
+let sub_fixed = ref false
 let cpp_command (toks : string list) : string =
   match toks with
   | ["sat"; size; off; len] -> show_u64 (sp_saturate (sp [] size off) (parse_u64 len))
@@ -109,7 +111,7 @@ let cpp_command (toks : string list) : string =
   | ["xz"; buf; size; off; len] -> let b = parse_buf buf in show_set b (setZeros (sp b size off) (parse_u64 len))
   | ["xpad"; buf; size; off; n] ->
     let b = parse_buf buf in
-    (match padAndMoveToAlignment (sp b size off) (parse_u64 n) with
+    (match (if !pad_fixed then padAndMoveToAlignment_fix else padAndMoveToAlignment) (sp b size off) (parse_u64 n) with
      | None -> "UB"
      | Some (Inr _) -> "-3 " ^ off ^ " " ^ show_buf b
      | Some (Inl (d, o)) -> "0 " ^ show_u64 o ^ " " ^ show_buf d)
@@ -119,7 +121,7 @@ let cpp_command (toks : string list) : string =
     let na = int_of_string nalloc in show_span na (subspan_bytes_clamped (sp (zeros na) size off) (parse_u64 nb))
   | ["xsub2"; nalloc; size; off; at; sb] ->
     let na = int_of_string nalloc in
-    (match subspan2 (sp (zeros na) size off) (parse_u64 at) (parse_u64 sb) with Inr _ -> "-3" | Inl s' -> show_span na s')
+    (match (if !sub_fixed then subspan2_fix else subspan2) (sp (zeros na) size off) (parse_u64 at) (parse_u64 sb) with Inr _ -> "-3" | Inl s' -> show_span na s')
   | ["xza"; buf; size; off] -> let b = parse_buf buf in show_set b (setZeros_all (sp b size off))
   | ["xcpa"; dst; dsize; doff; src; ssize; soff] -> show_ob (copyTo_all (sp (parse_buf src) ssize soff) (sp (parse_buf dst) dsize doff))
   | ["xat"; size; off; bits] -> let s' = at_offset (sp [] size off) (parse_u64 bits) in show_u64 (sp_bits s') ^ " " ^ show_u64 s'.sp_off
@@ -163,37 +165,36 @@ let rec chunks w (l : n list) : n list list =
   let rec take k l = if k = 0 then ([], l) else match l with [] -> ([], []) | x :: t -> let (a, b) = take (k - 1) t in (x :: a, b) in
   let (a, b) = take w l in a :: chunks w b
 let big_endian = ref false
-let patched = ref false   (* variant py-chk: the writers with the capacity test of design_notes/C14_py_too_small_fix.patch *)
 
 let ser_op (s : ser) (op : string) : ser =
   match String.split_on_char ':' op with
   | ["aa"; dt; h] ->
     let w = item_size dt in let xs = List.map of_le_bytes (chunks w (parse_buf h)) in
-    get (if !big_endian then be_add_aligned_array_std s (nat_of_int w) xs else if !patched then add_aligned_bytes_chk s (le_image (nat_of_int w) xs) else add_aligned_array_std s (nat_of_int w) xs)
+    get (if !big_endian then be_add_aligned_array_std s (nat_of_int w) xs else add_aligned_array_std s (nat_of_int w) xs)
   | ["ua"; dt; h] ->
     let w = item_size dt in let xs = List.map of_le_bytes (chunks w (parse_buf h)) in
-    get (if !big_endian then be_add_unaligned_array_std s (nat_of_int w) xs else if !patched then add_unaligned_bytes_chk s (le_image (nat_of_int w) xs) else add_unaligned_array_std s (nat_of_int w) xs)
+    get (if !big_endian then be_add_unaligned_array_std s (nat_of_int w) xs else add_unaligned_array_std s (nat_of_int w) xs)
   | ["sk"; k] -> skip_bits s (parse_u64 k)
   | ["pad"; k] -> get (pad_to_alignment s (parse_u64 k))
   | ["bit"; v] -> get (add_unaligned_bit s (v <> "0"))
-  | ["ub"; h] -> get ((if !patched then add_unaligned_bytes_chk else add_unaligned_bytes) s (parse_buf h))
-  | ["ab"; h] -> get ((if !patched then add_aligned_bytes_chk else add_aligned_bytes) s (parse_buf h))
-  | ["au"; v; b] -> get ((if !patched then add_aligned_unsigned_chk else add_aligned_unsigned) s (parse_u64 v) (parse_u64 b))
-  | ["uu"; v; b] -> get ((if !patched then add_unaligned_unsigned_chk else add_unaligned_unsigned) s (parse_u64 v) (parse_u64 b))
-  | ["as"; v; b] -> get ((if !patched then add_aligned_signed_chk else add_aligned_signed) s (z_of_string v) (parse_u64 b))
-  | ["us"; v; b] -> get ((if !patched then add_unaligned_signed_chk else add_unaligned_signed) s (z_of_string v) (parse_u64 b))
+  | ["ub"; h] -> get (add_unaligned_bytes s (parse_buf h))
+  | ["ab"; h] -> get (add_aligned_bytes s (parse_buf h))
+  | ["au"; v; b] -> get (add_aligned_unsigned s (parse_u64 v) (parse_u64 b))
+  | ["uu"; v; b] -> get (add_unaligned_unsigned s (parse_u64 v) (parse_u64 b))
+  | ["as"; v; b] -> get (add_aligned_signed s (z_of_string v) (parse_u64 b))
+  | ["us"; v; b] -> get (add_unaligned_signed s (z_of_string v) (parse_u64 b))
   | ["u8"; v] -> get (add_aligned_u8 s (parse_u64 v))
-  | ["u16"; v] -> get ((if !patched then add_aligned_u16_chk else add_aligned_u16) s (parse_u64 v))
-  | ["u32"; v] -> get ((if !patched then add_aligned_u32_chk else add_aligned_u32) s (parse_u64 v))
-  | ["u64"; v] -> get ((if !patched then add_aligned_u64_chk else add_aligned_u64) s (parse_u64 v))
+  | ["u16"; v] -> get (add_aligned_u16 s (parse_u64 v))
+  | ["u32"; v] -> get (add_aligned_u32 s (parse_u64 v))
+  | ["u64"; v] -> get (add_aligned_u64 s (parse_u64 v))
   | ["i8"; v] -> get (add_aligned_ixx (n_of_int 8) s (z_of_string v))
-  | ["i16"; v] -> get ((if !patched then add_aligned_ixx_chk else add_aligned_ixx) (n_of_int 16) s (z_of_string v))
-  | ["i32"; v] -> get ((if !patched then add_aligned_ixx_chk else add_aligned_ixx) (n_of_int 32) s (z_of_string v))
-  | ["i64"; v] -> get ((if !patched then add_aligned_ixx_chk else add_aligned_ixx) (n_of_int 64) s (z_of_string v))
-  | ["abits"; b] -> get ((if !patched then add_aligned_array_of_bits_chk else add_aligned_array_of_bits) s (bits_of_string (if b = "-" then "" else b)))
-  | ["ubits"; b] -> get ((if !patched then add_unaligned_array_of_bits_chk else add_unaligned_array_of_bits) s (bits_of_string (if b = "-" then "" else b)))
-  | ["af"; _; _; packed] -> get ((if !patched then add_aligned_bytes_chk else add_aligned_bytes) s (parse_buf packed))
-  | ["uf"; _; _; packed] -> get ((if !patched then add_unaligned_bytes_chk else add_unaligned_bytes) s (parse_buf packed))
+  | ["i16"; v] -> get (add_aligned_ixx (n_of_int 16) s (z_of_string v))
+  | ["i32"; v] -> get (add_aligned_ixx (n_of_int 32) s (z_of_string v))
+  | ["i64"; v] -> get (add_aligned_ixx (n_of_int 64) s (z_of_string v))
+  | ["abits"; b] -> get (add_aligned_array_of_bits s (bits_of_string (if b = "-" then "" else b)))
+  | ["ubits"; b] -> get (add_unaligned_array_of_bits s (bits_of_string (if b = "-" then "" else b)))
+  | ["af"; _; _; packed] -> get (add_aligned_bytes s (parse_buf packed))
+  | ["uf"; _; _; packed] -> get (add_unaligned_bytes s (parse_buf packed))
   | _ -> failwith ("bad ser op " ^ op)
 
 let run_pyser (n : string) (ops : string list) : string =
@@ -289,13 +290,18 @@ let py_command (toks : string list) : string =
   | _ -> "ERR unknown command"
 
 let () =
-  let cpp = (Array.length Sys.argv = 2 && Sys.argv.(1) = "cpp") in
-  let py = (Array.length Sys.argv = 2 && (Sys.argv.(1) = "py" || Sys.argv.(1) = "py-chk")) in
-  patched := (Array.length Sys.argv = 2 && Sys.argv.(1) = "py-chk");
-  let little = match Sys.argv with
-    | [| _; "c-little" |] -> true
-    | [| _; "c-any" |] | [| _; "cpp" |] | [| _; "py" |] | [| _; "py-chk" |] -> false
-    | _ -> prerr_endline "usage: driver c-any|c-little|cpp"; exit 2 in
+  (* cpp[+pad][+sub]: the C++ model; +pad / +sub select the text of design_notes/C14_bitspan_wrap_fix.patch (Prims/CppPrimsFix.v)
+     for padAndMoveToAlignment / subspan(bits_at, size_bits) instead of the text currently in /repo *)
+  let variant = if Array.length Sys.argv = 2 then String.split_on_char '+' Sys.argv.(1) else [] in
+  let cpp = (match variant with "cpp" :: _ -> true | _ -> false) in
+  pad_fixed := cpp && List.mem "pad" variant;
+  sub_fixed := cpp && List.mem "sub" variant;
+  let py = (variant = ["py"]) in
+  let little = match variant with
+    | ["c-little"] -> true
+    | ["c-any"] | ["py"] -> false
+    | "cpp" :: _ -> false
+    | _ -> prerr_endline "usage: driver c-any|c-little|cpp[+pad][+sub]|py"; exit 2 in
   let out = Buffer.create 65536 in
   (try
     while true do
